@@ -1,5 +1,5 @@
 SPECIFICATION Spec
 CONSTANTS W = 2
-          N = 400
+          N = 320
 INVARIANTS NatOps IntOps DivRel GcdRel GcdZero SqrtRel RatOps PartRel TextRel
 CHECK_DEADLOCK FALSE
